@@ -81,7 +81,10 @@ let parse_pred (e : sexp) : z -> bool =
   | L [A "always"] -> (fun _ -> true)
   | _ -> failwith "bad pred"
 let show_zlist l = "[" ^ String.concat " " (List.map string_of_z l) ^ "]"
-let show_fdopt = function None -> "none" | Some d -> show_zlist (fd_iter d)
+let show_fdopt = function
+  | None -> "none"
+  | Some (Interval (lo, hi)) when Z.ltb (z_of_small 100) (Z.sub hi lo) -> "{" ^ string_of_z lo ^ ".." ^ string_of_z hi ^ "}"
+  | Some d -> show_zlist (fd_iter d)
 let show_zopt = function None -> "none" | Some x -> string_of_z x
 let show_bool b = if b then "true" else "false"
 
